@@ -72,7 +72,8 @@ def gen_boundary(rng, n, faults):
     out = []
     for _ in range(n):
         cap = rng.choice([0, 1, 2, 3, 5, 8, 16, 31, 64, 512])
-        e = rng.choice(ENDINGS + ["0a", "0a"])
+        # terminators of 0, 1, 2 and 3 bytes; U+2028 and U+00E9 are one character but several bytes
+        e = rng.choice(ENDINGS + ["0a", "0a", "e280a8", "c3a9", "0d0a0d0a"])
         el = len(unhex(e))
         ops = []
         fill = 0
@@ -125,7 +126,7 @@ def gen_large(rng, n, faults):
                                                 ("E", metric(3, ln)), ("E", metric(4, 1))], []))
     for _ in range(n):
         cap = rng.choice(caps + [10000, 12288, 20000, 32768])
-        e = rng.choice(["0a", "0a", "0d0a", "-"])
+        e = rng.choice(["0a", "0a", "0d0a", "-", "e280a8"])
         el = len(unhex(e))
         ops = []
         tot = 0
@@ -654,6 +655,17 @@ def run_writer_check(prop, tier, seed, faults, design_ref):
             rep.violation_noinput("correspondence run failed (CW family)", {"error": str(e)})
             return rep.finish()
         for (wc, wm), o in zip(src, cimpl):
+            if o.startswith("R:") and "|L:" in o and (faults or wc.split()[4] == "-"):
+                # the property's own clauses on what the client-level run did (the client does not report byte counts:
+                # an Ok emit stands for Ok(len))
+                wops = wc.split()[3].split(",") if wc.split()[3] != "-" else []
+                rr = o.split("|L:")[0][2:].split(",")
+                full = ",".join(("k%d" % (len(unhex(wops[j][1:])) if j < len(wops) and wops[j][0] == "E" else 0)) if x == "k" else x
+                                for j, x in enumerate(rr))
+                v = _check_one((prop, wc, "R:" + full + "|L:" + o.split("|L:")[1]))
+                if v:
+                    cw_fail.append((case_size(wc), "C" + wc, o, "through the client: " + v))
+                    continue
             mr, ml = wm.split("|L:")
             want = "R:" + ",".join("k" if x[:1] == "k" else x for x in mr[2:].split(",")) + "|L:" + ml
             if o == want:
